@@ -320,12 +320,12 @@ def _encoder_total(ctx):
     loops = [n for n in ast.walk(sv) if isinstance(n, ast.For) and isinstance(n.iter, ast.Name) and n.iter.id == "classInfo" and isinstance(n.target, ast.Tuple)]
     ctx.need(len(loops) == 1, "the loop over classInfo in objectSaveHook")
     lp = loops[0]
-    tests = {c.func.id for st in ast.walk(lp) if isinstance(st, ast.If) for c in ast.walk(st.test) if isinstance(c, ast.Call) and isinstance(c.func, ast.Name)}
+    tests = {c.func.id for st in ast.walk(sv) if isinstance(st, (ast.If, ast.IfExp, ast.While)) for c in ast.walk(st.test) if isinstance(c, ast.Call) and isinstance(c.func, ast.Name)}
     analysed = []
     for pos, t in enumerate(lp.target.elts):
         if not isinstance(t, ast.Name):
             continue
-        used = any(isinstance(c, ast.Call) and isinstance(c.func, ast.Name) and c.func.id == t.id for c in ast.walk(lp))
+        used = any(isinstance(c, ast.Call) and isinstance(c.func, ast.Name) and c.func.id == t.id for c in ast.walk(sv))
         if not used:
             continue
         fns = []
@@ -668,5 +668,11 @@ SILENT = [
     Silent("fallback-encoder-at-module-level", JSON, "    def default(unencodable: object) -> Union[JSONDict, str]:\n", "    def unusedLocal(unencodable: object) -> Union[JSONDict, str]:\n",
            more=[(JSON, "    return dumps(event, default=default, skipkeys=True)", "    return dumps(event, default=_fallback, skipkeys=True)"),
                  (JSON, "def eventAsJSON(event: LogEvent) -> str:\n", "def _fallback(thing):\n    if not isinstance(thing, bytes):\n        return objectSaveHook(thing)\n    return thing.decode(\"charmap\")\n\n\ndef eventAsJSON(event: LogEvent) -> str:\n")]),
+    Silent("conversion-functions-from-a-module-table", FLAT, _CONV_FIXED, "        conversionFunction = _RENDER[conversion]\n",
+           more=[(FLAT, "aFormatter = Formatter()\n", "aFormatter = Formatter()\n_RENDER = {\"r\": repr, \"a\": ascii, \"s\": str}\n")]),
+    Silent("save-hook-as-search-loop-with-else", JSON, "        if predicate(pythonObject):\n            result = saver(pythonObject)\n            result[\"__class_uuid__\"] = str(uuid)\n            return result\n    return {\"unpersistable\": True}\n",
+           "        if predicate(pythonObject):\n            break\n    else:\n        return {\"unpersistable\": True}\n    result = saver(pythonObject)\n    result[\"__class_uuid__\"] = str(uuid)\n    return result\n"),
+    Silent("fallback-encoder-as-conditional-expression", JSON, "        if isinstance(unencodable, bytes):\n            return unencodable.decode(\"charmap\")\n        return objectSaveHook(unencodable)\n",
+           "        return unencodable.decode(\"charmap\") if isinstance(unencodable, bytes) else objectSaveHook(unencodable)\n"),
     Silent("json-local-for-text", JSON, "    flattenEvent(event)\n    return dumps(event, default=default, skipkeys=True)", "    flattenEvent(event)\n    text = dumps(event, default=default, skipkeys=True)\n    return text"),
 ]
